@@ -24,6 +24,11 @@ package main
 //   (iii) the recording processor (custom tag `mytag`) was handed exactly the settable units carrying its tag,
 //         with the value part and arguments that the real NewProperty parses from the tag text.
 // "unit" = a leaf field, or a struct field the scanner does not descend into.
+//
+// Field NAMES may repeat across different holders (sibling mix-ins declaring the same name, diamonds `Left{Base}`
+// `Right{Base}`, shadowing): only the PATH (holder chain + name) of a unit is unique.  About a quarter of the
+// generated shapes contain such repetitions (labels name-ambig / name-shadow / type-diamond); the flattened form
+// suffixes repeated names and corresponds to the nested form by position.
 
 import (
 	"fmt"
@@ -432,14 +437,100 @@ func scanDepth(kids []*scanNode) int {
 	return d
 }
 
+// the flattened arrangement: all units as direct fields, in scan order.  Unit NAMES may repeat in a nested shape
+// (different holders); a repeated name gets the suffix d<k> in the flat form (same case of the first letter, so
+// the same settability), and units correspond by position.
 func scanFlatten(kids []*scanNode) []*scanNode {
 	var us []scanUnit
 	scanUnits(kids, "", nil, &us)
+	used := map[string]bool{}
+	for _, u := range us {
+		used[u.n.name] = true
+	}
+	seen := map[string]int{}
 	out := make([]*scanNode, len(us))
 	for i, u := range us {
-		out[i] = u.n
+		n := u.n
+		if k := seen[n.name]; k > 0 {
+			c := *n
+			for {
+				c.name = n.name + "d" + strconv.Itoa(k)
+				if !used[c.name] {
+					break
+				}
+				k++
+			}
+			used[c.name] = true
+			n = &c
+		}
+		seen[u.n.name]++
+		out[i] = n
 	}
 	return out
+}
+
+// how field names repeat among the fields the scanner reaches (labels only).  A name is an ambiguous selector on the
+// component when it occurs more than once at its shallowest depth (holders count, as for Go's selector rule).
+func scanNameStats(kids []*scanNode) (ambig, ambigTagged, shadow, diamond bool) {
+	type occ struct {
+		depth int
+		u     *scanNode // nil for a descended holder
+	}
+	names := map[string][]occ{}
+	types := map[string]int{}
+	var walk func(kids []*scanNode, depth int)
+	walk = func(kids []*scanNode, depth int) {
+		for _, k := range kids {
+			if k.descended() {
+				names[k.name] = append(names[k.name], occ{depth, nil})
+				if len(k.kids) > 0 {
+					var sb strings.Builder
+					scanEncodeNode(&sb, k)
+					types[sb.String()]++
+				}
+				walk(k.kids, depth+1)
+			} else {
+				names[k.name] = append(names[k.name], occ{depth, k})
+			}
+		}
+	}
+	walk(kids, 0)
+	for _, c := range types {
+		if c > 1 {
+			diamond = true
+		}
+	}
+	for _, os := range names {
+		if len(os) < 2 {
+			continue
+		}
+		min, atMin := os[0].depth, 0
+		for _, o := range os {
+			if o.depth < min {
+				min = o.depth
+			}
+		}
+		for _, o := range os {
+			if o.depth == min {
+				atMin++
+			}
+		}
+		for _, o := range os {
+			if o.u == nil {
+				continue
+			}
+			if o.depth > min {
+				shadow = true
+			}
+			if atMin > 1 {
+				ambig = true
+				if _, ok := (scanUnit{n: o.u}).recognised(); ok && scanExported(o.u.name) {
+					ambigTagged = true
+				}
+			}
+		}
+	}
+	return
 }
 
 func (u scanUnit) recognised() (string, bool) {
@@ -690,7 +781,7 @@ func scanOracleSingle(r *scanResult) string {
 	return ""
 }
 
-// oracle (i): against the flattened arrangement, unit by unit (units keep their names)
+// oracle (i): against the flattened arrangement, unit by unit (by position: repeated names are suffixed in the flat form)
 func scanOracleFlat(r, flat *scanResult) string {
 	if r.outcome != flat.outcome {
 		return fmt.Sprintf("FAIL scan-renest outcome %s, flattened %s", r.outcome, flat.outcome)
@@ -703,8 +794,8 @@ func scanOracleFlat(r, flat *scanResult) string {
 	}
 	for i, u := range r.units {
 		fu := flat.units[i]
-		if fu.n.name != u.n.name {
-			return "FAIL scan-renest unit order"
+		if fu.n.ty != u.n.ty || fu.n.tagText() != u.n.tagText() || scanExported(fu.n.name) != scanExported(u.n.name) {
+			return "FAIL scan-renest unit order" // harness sanity: the same declarations in the same order (names may differ, see scanFlatten)
 		}
 		if r.nprops[u.path] > 1 || flat.nprops[fu.path] > 1 {
 			// two processors own the field (e.g. a marker that also carries a value tag); processors of equal
@@ -736,6 +827,15 @@ func scanLabels(kids []*scanNode, r *scanResult, extra ...string) []string {
 		tags = append(tags, "tag-"+k)
 	}
 	tags = append(tags, fmt.Sprintf("units%d", len(r.units)/4*4))
+	am, amt, sh, di := scanNameStats(kids)
+	for _, l := range []struct {
+		on bool
+		s  string
+	}{{am, "name-ambig"}, {amt, "name-ambig-tagged"}, {sh, "name-shadow"}, {di, "type-diamond"}} {
+		if l.on {
+			tags = append(tags, l.s)
+		}
+	}
 	if d == 0 || nrec == 0 {
 		tags = append(tags, "trivial")
 	}
@@ -811,9 +911,64 @@ type ScanStatic0Flat struct {
 	W     string `value:"${s.k1}"`
 }
 
-var scanStaticFlat = map[int]any{0: ScanStatic0Flat{}}
+// two sibling mix-ins (one of an unexported type) that declare equally named fields at the same depth: `Dep` and `N`
+// are ambiguous selectors on ScanStatic4, yet each is a field of its own, addressable through its holder
+type ScanReader struct {
+	Dep *ScanProvA `wire:""`
+	Src string     `value:"lit"`
+	N   int        `mytag:"r,a=1"`
+}
+type scanWriter struct {
+	Dep *ScanProvA `wire:""`
+	Dst string     `value:"${s.k1}"`
+	N   int        `mytag:"w" prop:"i.k"`
+}
+type ScanStatic4 struct {
+	ScanReader
+	scanWriter
+	Own string `prop:"s.k2"`
+}
+type ScanStatic4Flat struct {
+	Dep  *ScanProvA `wire:""`
+	Src  string     `value:"lit"`
+	N    int        `mytag:"r,a=1"`
+	Dep2 *ScanProvA `wire:""`
+	Dst  string     `value:"${s.k1}"`
+	N2   int        `mytag:"w" prop:"i.k"`
+	Own  string     `prop:"s.k2"`
+}
 
-var scanStatics = []any{ScanStatic0{}, ScanStatic1{}, ScanStatic2{}, ScanStatic3{}}
+// a diamond: the same embedded type reached through two parents; Right.V shadows the two Base.V
+type ScanBase struct {
+	D  *ScanProvB    `wire:""`
+	Mk string        `mytag:"m,opt=1"`
+	V  int           `value:"42"`
+	lg syslog.Logger `logger:""`
+}
+type ScanLeft struct{ ScanBase }
+type ScanRight struct {
+	ScanBase
+	V bool `value:"false"`
+}
+type ScanStatic5 struct {
+	ScanLeft
+	ScanRight
+}
+type ScanStatic5Flat struct {
+	D   *ScanProvB    `wire:""`
+	Mk  string        `mytag:"m,opt=1"`
+	V   int           `value:"42"`
+	lg  syslog.Logger `logger:""`
+	D2  *ScanProvB    `wire:""`
+	Mk2 string        `mytag:"m,opt=1"`
+	V2  int           `value:"42"`
+	lg2 syslog.Logger `logger:""`
+	V3  bool          `value:"false"`
+}
+
+var scanStaticFlat = map[int]any{0: ScanStatic0Flat{}, 4: ScanStatic4Flat{}, 5: ScanStatic5Flat{}}
+
+var scanStatics = []any{ScanStatic0{}, ScanStatic1{}, ScanStatic2{}, ScanStatic3{}, ScanStatic4{}, ScanStatic5{}}
 
 func scanParseTag(tag string) []scanKV {
 	// the conventional format only (static types are hand-written); mirrors reflect.StructTag.Lookup's scanner
@@ -1115,6 +1270,214 @@ func (g *scanGenSt) renest(units []*scanNode, depth int) []*scanNode {
 	return out
 }
 
+/* ---------- repeated names: Go requires unique field names per struct only ---------- */
+
+// a struct the scanner walks: the component itself (owner nil) or a descended embedded struct
+type scanSite struct {
+	owner  *scanNode
+	kids   *[]*scanNode
+	depth  int
+	parent *scanSite
+}
+
+func scanSites(kids *[]*scanNode, owner *scanNode, depth int, parent *scanSite, out *[]*scanSite) {
+	s := &scanSite{owner: owner, kids: kids, depth: depth, parent: parent}
+	*out = append(*out, s)
+	for _, k := range *kids {
+		if k.descended() {
+			scanSites(&k.kids, k, depth+1, s, out)
+		}
+	}
+}
+
+func scanHasName(kids []*scanNode, name string) bool {
+	for _, k := range kids {
+		if k.name == name {
+			return true
+		}
+	}
+	return false
+}
+
+// zero-size struct fields keep their unique names (hence unique types): the harness tells sibling holders apart by
+// type and address, and two zero-size siblings of one type share an address
+func scanZeroSize(n *scanNode) bool { return n.isStruct && scanFieldType(n).Size() == 0 }
+
+func scanClone(n *scanNode) *scanNode {
+	c := *n
+	c.tags = append([]scanKV(nil), n.tags...)
+	c.kids = nil
+	for _, k := range n.kids {
+		c.kids = append(c.kids, scanClone(k))
+	}
+	return &c
+}
+
+func scanCountUnits(n *scanNode) int {
+	var us []scanUnit
+	scanUnits([]*scanNode{n}, "", nil, &us)
+	return len(us)
+}
+
+// give a field of one walked struct the NAME of a field of another walked struct (mostly one at the same depth:
+// siblings and cousins, an ambiguous selector; otherwise any: shadowing).  Paths stay unique.
+func (g *scanGenSt) dupName(root *[]*scanNode) bool {
+	r := g.r
+	var sites, ne []*scanSite
+	scanSites(root, nil, 0, nil, &sites)
+	for _, s := range sites {
+		if len(*s.kids) > 0 {
+			ne = append(ne, s)
+		}
+	}
+	if len(ne) < 2 || r.P(1, 4) {
+		return g.splitDup(sites)
+	}
+	for try := 0; try < 30; try++ {
+		a := ne[r.Intn(len(ne))]
+		mode := r.Intn(8) // 0-3 siblings, 4-5 same depth, 6-7 any (shadowing)
+		var cands []*scanSite
+		for _, b := range ne {
+			if b == a || (mode < 4 && b.parent != a.parent) || (mode < 6 && b.depth != a.depth) {
+				continue
+			}
+			cands = append(cands, b)
+		}
+		if len(cands) == 0 {
+			continue
+		}
+		b := cands[r.Intn(len(cands))]
+		pick := func(kids []*scanNode) *scanNode {
+			if r.P(2, 3) { // prefer the fields a tag processor must be handed
+				var good []*scanNode
+				for _, k := range kids {
+					if _, ok := (scanUnit{n: k}).recognised(); ok && scanExported(k.name) && !k.descended() {
+						good = append(good, k)
+					}
+				}
+				if len(good) > 0 {
+					return good[r.Intn(len(good))]
+				}
+			}
+			return kids[r.Intn(len(kids))]
+		}
+		k1, k2 := pick(*a.kids), pick(*b.kids)
+		if k1.name == k2.name || scanExported(k1.name) != scanExported(k2.name) || scanZeroSize(k2) || scanHasName(*b.kids, k1.name) {
+			continue
+		}
+		k2.name = k1.name
+		return true
+	}
+	return g.splitDup(sites)
+}
+
+// two units of one walked struct become two sibling mix-ins declaring the same name: `.. u1 .. u2 ..` -> `.. E{u1} .. E'{u1'} ..`
+// (same units in the same order)
+func (g *scanGenSt) splitDup(sites []*scanSite) bool {
+	r := g.r
+	for try := 0; try < 10; try++ {
+		s := sites[r.Intn(len(sites))]
+		var idx []int
+		for i, k := range *s.kids {
+			if !k.descended() && !scanZeroSize(k) {
+				idx = append(idx, i)
+			}
+		}
+		if len(idx) < 2 {
+			continue
+		}
+		a := r.Intn(len(idx) - 1)
+		i, j := idx[a], idx[a+1+r.Intn(len(idx)-a-1)]
+		k1, k2 := (*s.kids)[i], (*s.kids)[j]
+		if scanExported(k1.name) != scanExported(k2.name) {
+			continue
+		}
+		k2.name = k1.name
+		for _, x := range []int{i, j} {
+			(*s.kids)[x] = &scanNode{name: g.fresh("E"), ty: "st", isStruct: true, anon: true, byVal: true, kids: []*scanNode{(*s.kids)[x]}}
+		}
+		return true
+	}
+	return false
+}
+
+// the same embedded struct TYPE (same field names, same tags) under two different parents:
+// wrapped `L{B} R{B}` side by side, or a copy of B implanted into another walked struct
+func (g *scanGenSt) diamond(root *[]*scanNode) bool {
+	r := g.r
+	var sites, cands []*scanSite
+	scanSites(root, nil, 0, nil, &sites)
+	for _, s := range sites {
+		if s.owner != nil && len(*s.kids) > 0 && !scanZeroSize(s.owner) && scanCountUnits(s.owner) <= 10 {
+			cands = append(cands, s)
+		}
+	}
+	if len(cands) == 0 {
+		return false
+	}
+	s := cands[r.Intn(len(cands))]
+	b, p := s.owner, s.parent
+	cp := scanClone(b)
+	insert := func(kids *[]*scanNode, at int, n *scanNode) {
+		*kids = append(*kids, nil)
+		copy((*kids)[at+1:], (*kids)[at:])
+		(*kids)[at] = n
+	}
+	if r.Bool() {
+		var targets []*scanSite
+		for _, t := range sites {
+			inside := false
+			for x := t; x != nil; x = x.parent {
+				if x == s {
+					inside = true
+				}
+			}
+			if t != p && !inside && !scanHasName(*t.kids, b.name) {
+				targets = append(targets, t)
+			}
+		}
+		if len(targets) > 0 {
+			t := targets[r.Intn(len(targets))]
+			insert(t.kids, r.Intn(len(*t.kids)+1), cp)
+			return true
+		}
+	}
+	at := 0
+	for i, k := range *p.kids {
+		if k == b {
+			at = i
+		}
+	}
+	wrap := func(n *scanNode) *scanNode {
+		w := &scanNode{name: g.fresh("E"), ty: "st", isStruct: true, anon: true, byVal: true, kids: []*scanNode{n}}
+		if r.P(1, 3) {
+			w.kids = append(w.kids, g.node(g.maxDep, true)) // a leaf of its own
+		}
+		return w
+	}
+	(*p.kids)[at] = wrap(b)
+	insert(p.kids, at+1+r.Intn(len(*p.kids)-at), wrap(cp))
+	return true
+}
+
+// repeated names in about a quarter of all shapes (the flattened forms cannot have any)
+func (g *scanGenSt) repeatNames(root *[]*scanNode, diamonds bool) {
+	r := g.r
+	if !r.P(1, 2) {
+		return
+	}
+	c := r.Intn(100)
+	if diamonds && c < 55 {
+		g.diamond(root)
+		if c < 25 {
+			return
+		}
+	}
+	for k := 1 + r.Intn(3); k > 0; k-- {
+		g.dupName(root)
+	}
+}
+
 func scanGen(rng *hx.Rng, n int, tier string, w *hx.Writer) {
 	renests, maxDep := 1, 5
 	if tier == "thorough" {
@@ -1126,13 +1489,25 @@ func scanGen(rng *hx.Rng, n int, tier string, w *hx.Writer) {
 			g.maxDep = g.r.Intn(maxDep + 1)
 		}
 		base := g.kids(0, true, true)
+		g.repeatNames(&base, true)
 		flatKids := scanFlatten(base)
 		flat := scanCase("G", flatKids, nil, nil, []string{"flat"}, w)
 		scanCase("G", base, nil, flat, []string{"base"}, w)
 		for k := 0; k < renests; k++ {
-			scanCase("G", g.renest(flatKids, 0), nil, flat, []string{"renest"}, w)
+			// the units are shared with the flat form: rename copies only
+			re := g.renest(scanCloneAll(flatKids), 0)
+			g.repeatNames(&re, false)
+			scanCase("G", re, nil, flat, []string{"renest"}, w)
 		}
 	}
+}
+
+func scanCloneAll(kids []*scanNode) []*scanNode {
+	out := make([]*scanNode, len(kids))
+	for i, k := range kids {
+		out[i] = scanClone(k)
+	}
+	return out
 }
 
 func scanStaticCase(k int, s any, labels []string, w *hx.Writer) {
@@ -1162,6 +1537,19 @@ func scanCorpus(w *hx.Writer) {
 	flat := scanCase("G", scanFlatten(deep), nil, nil, []string{"corpus", "flat"}, w)
 	scanCase("G", deep, nil, flat, []string{"corpus", "base"}, w)
 	scanCase("G", nil, nil, nil, []string{"corpus"}, w)
+	// repeated names: sibling mix-ins with an equally named field; a diamond; a shadowed name
+	dep := func() *scanNode { return leaf("Dep", "pa", scanKV{"wire", ""}) }
+	base := func() *scanNode {
+		return emb("Base", leaf("D", "pb", scanKV{"wire", ""}), leaf("Mk", "s", scanKV{scanCustomTag, "m,opt=1"}), leaf("V", "i", scanKV{"value", "42"}))
+	}
+	for _, sh := range [][]*scanNode{
+		{emb("Reader", dep(), leaf("Src", "s", scanKV{"value", "lit"})), emb("Writer", dep(), leaf("Dst", "s", scanKV{"prop", "s.k1"}))},
+		{emb("Left", base()), emb("Right", base(), leaf("Q", "i"))},
+		{emb("Left", base()), leaf("V", "b", scanKV{"value", "false"}), emb("Mid", emb("Right", base()), leaf("Mk", "s", scanKV{scanCustomTag, "n"}))},
+	} {
+		fl := scanCase("G", scanFlatten(sh), nil, nil, []string{"corpus", "flat"}, w)
+		scanCase("G", sh, nil, fl, []string{"corpus", "base"}, w)
+	}
 }
 
 func scanReplay(scn string, w *hx.Writer) {
